@@ -303,6 +303,7 @@ JudgeRequest(r) ==
        z0 == [i \in 1..r.n |-> ZOn(i - 1)]
        wf == \A i \in 1..Len(r.gates) : WellFormed(r.gates[i], r.n)
    IN  C(r.validate = -1 \/ (r.validate = 1) = valid, "validate")
+       \cup C(r.ctorv = -1 \/ (r.ctorv = 1) = valid, "validate")       \* the same check through Stabilizer(..., validate=True)
        \cup (IF r.outcome = "raise" THEN {}
              ELSE C(wf, "unknown-gate")
                   \cup (IF ~wf THEN {}
